@@ -226,6 +226,9 @@ def replay(rec, ctx):
                     obj.set_polarization(conc("polarization", e["v"]))
                 else:
                     setattr(obj, e["p"], conc(e["p"], e["v"], obj))
+            elif e["op"] == "reattach":
+                if laser is not None:
+                    laser.laser_profile = obj
             else:
                 readout(kind, obj, laser)
         except ValueError:
